@@ -5,7 +5,19 @@
    made of five kinds of statements over expressions that only build values.  A body that
    does not fit is emitted as [Other] (printed Go text, for functions that are not builders:
    render entry points, File setters) or [Untranslatable] (for anything that returns a
-   *Statement or takes a callback: the checker of Spec/ApiSem.v rejects it).
+   *Statement or takes a callback: the checker of Spec/ApiSem.v rejects it).  One more shape is
+   recognised for functions that are not builders, [BufString] (render into a new buffer, panic
+   on error, return the buffer's text: the GoString methods).
+
+   Besides the rows the translator prints what go/types says about every struct type of the
+   package ([struct_info]: embedded types, field names), so that the checker can tell which
+   types get the methods of *Group / *Statement by promotion and whether they shadow one.
+
+   The receiver of a row ([r_recv]) is the name of the receiver's NAMED type as go/types resolves
+   it (through type aliases and parentheses), for every method with an exported name, whether
+   or not the receiver type is exported; [r_ret] is "*Statement" exactly when the function has one
+   result and go/types says its type is identical to *Statement (so through aliases too), and the
+   printed result type(s) otherwise.
 
    Normalisations done by the translator (all are Go semantics, none is a choice):
    - a field omitted from a keyed composite literal is its zero value ([EStr []], [EBool false],
@@ -58,7 +70,13 @@ Inductive stmt :=
 Inductive body :=
 | Body (l : list stmt)
 | Other (printed : str)
-| Untranslatable (reason : str).
+| Untranslatable (reason : str)
+(* buf := <a new bytes.Buffer>; if err := call; err != nil { panic(err) }; return buf.String()
+   where [call] is a method call of package jen in which [EVar buf] stands for the pointer to
+   that buffer (written &buf or buf, as the declaration of buf requires); nothing else in the
+   body.  The new buffer may be written `bytes.Buffer{}`, `&bytes.Buffer{}`, `new(bytes.Buffer)`
+   or `var buf bytes.Buffer`; the error may be bound in the if statement or the line before. *)
+| BufString (buf : str) (call : expr).
 
 Record api_row := mkrow {
   r_recv : str;            (* "" for a package function, else the receiver's base type name *)
@@ -68,6 +86,13 @@ Record api_row := mkrow {
   r_ret : str;             (* printed result type(s); "" if none *)
   r_body : body
 }.
+
+(* a struct type of package jen, as go/types sees it: [t_embeds] the names of the types of its
+   embedded fields (T for both T and *T; "pkg.T" for a type of another package), [t_fields] the
+   names of its other fields.  A type declared inside a function is named "T@file:line".  A
+   defined type whose underlying type is a struct (type T2 T) has the same embedded fields
+   (and gets their methods by promotion), so it has an entry too. *)
+Record struct_info := mkstruct { t_name : str; t_embeds : list str; t_fields : list str }.
 
 (* induction principle exposing the nested lists *)
 Section ExprInd.
